@@ -33,6 +33,7 @@ TORN = ({"HeaderReadUnderLock": "FALSE"}, "HeaderReadUnderLock=FALSE")
 ALL_FORMS = ["up", "up@reg", "up@dio", "up@bare", "up@dhub", "tok", "tok@dio", "b64", "b64@reg", "bad64", "empty@reg", "nil"]
 DOCKER_IMAGES = ["alpine", "docker.io/library/alpine", "docker.io/library/alpine:latest", "reg.example.com/app:1"]
 DOCKER_REFS = ["docker.io/library/alpine:latest", "reg.example.com/app:1"]
+TAG_IMAGES = ["reg.example.com/app:1", "reg.example.com/app:2"]
 DOCKER_HOSTS = ["reg.example.com", "docker.io", "registry-1.docker.io", "index.docker.io", "mirror.example.com"]
 
 
@@ -97,6 +98,24 @@ def validate(par, what, trace_path, tmod, tcfg, mmod, mcfg, ov, props, nontrivia
     switched off; if it conforms, the signature says so (the implementation behaves like the design without the guard)."""
     run = par.run
     results[what] = False
+    group = what
+    segs = []     # (first line, label): trace_path may be a list of (label, file) validated in ONE TLC run (fewer JVM starts)
+    if isinstance(trace_path, (list, tuple)):
+        merged = os.path.join(run.scratch, "merged_%s.ndjson" % what.replace(" ", "_"))
+        n = 0
+        with open(merged, "w") as fh:
+            for label, path in trace_path:
+                lines = [x for x in open(path) if x.strip()]
+                if not lines:
+                    raise Inconclusive("%s: the driver recorded nothing" % label)
+                segs.append((n + 1, label))
+                fh.writelines(lines)
+                n += len(lines)
+        trace_path = merged
+
+    def label_of(line):
+        c = [lab for first, lab in segs if first <= line]
+        return c[-1] if c else group
     events = read_ndjson(trace_path)
     if not events:
         raise Inconclusive("%s: the driver recorded nothing" % what)
@@ -117,6 +136,7 @@ def validate(par, what, trace_path, tmod, tcfg, mmod, mcfg, ov, props, nontrivia
         run.cov["evaluations"] += len(events)
     if viol:
         line = failing_line(mr)
+        what = label_of(line)
         tr = trace_of(line)
         ev = events[line - 1] if 0 < line <= len(events) else {}
         if viol in props:
@@ -136,6 +156,7 @@ def validate(par, what, trace_path, tmod, tcfg, mmod, mcfg, ov, props, nontrivia
         return
     if not res["accepted"]:
         line = (res["consumed"] or 0) + 1
+        what = label_of(line)
         tr = trace_of(line)
         if res["violated"] in props:
             run.violation("trace-property:%s:%s" % (res["violated"], what.split()[0]),
@@ -152,7 +173,7 @@ def validate(par, what, trace_path, tmod, tcfg, mmod, mcfg, ov, props, nontrivia
         run.cov["traces_validated_against_impl"] += len(traces)
         run.cov["distinct_nontrivial"] += len({digest(t) for t in nt})
         run.add_samples([{"module": tmod, "mode": what, "events": t[:14]} for t in nt[sample:sample + 1]], limit=3)
-    results[what] = True
+    results[group] = True
 
 
 # ------------------------------------------------------------------------------------------------ Creds
@@ -186,10 +207,9 @@ def creds_prepare(par, thorough, results):
     nontriv = lambda t: any(e.get("ev") == "Query" and (e.get("user") or e.get("secret")) for e in t)
 
     def after(rc, out):
-        par.go(validate, par, "creds-replay", replay_out, "CredsTrace", "CredsTrace.cfg", "CredsMonitor", "CredsMonitor.cfg",
-               None, CREDS_PROPS, nontriv, 3, results)
-        par.go(validate, par, "creds-random docker.io", random_out, "CredsTrace", "CredsTrace.cfg", "CredsMonitor", "CredsMonitor.cfg",
-               {"Images": tset(DOCKER_IMAGES), "Hosts": tset(DOCKER_HOSTS)}, CREDS_PROPS, nontriv, 1, results)
+        par.go(validate, par, "creds", [("creds-replay", replay_out), ("creds-random docker.io", random_out)],
+               "CredsTrace", "CredsTrace.cfg", "CredsMonitor", "CredsMonitor.cfg",
+               {"Images": tset(sorted(set(DOCKER_IMAGES + TAG_IMAGES))), "Hosts": tset(DOCKER_HOSTS)}, CREDS_PROPS, nontriv, 3, results)
     return dict(pkg="./service/keychain/cri/", overlay=CREDS_OVERLAY, tests="TestVerifCreds(Replay|Random)", after=after,
                 env={"VERIF_CREDS_IN": inp, "VERIF_CREDS_RANDOM_OUT": random_out,
                      "VERIF_CREDS_RANDOM_TRACES": "400" if thorough else "40",
@@ -252,22 +272,20 @@ def fetcher_prepare(par, thorough, results):
         except Inconclusive:
             return          # reported by join()
         log("[replay] fetcher %s: %d walks %d steps executed, %d diverged" % (j["name"], sm["walks"], sm["steps"], len(sm["diverged"] or [])))
-        if sm["diverged"] and results.get("fetcher-replay " + j["name"]):
+        if sm["diverged"] and results.get("fetcher"):
             run.inconclusive.append("SPEC-DRIFT fetcher-replay %s: the implementation could not be driven along %d walk(s), e.g. %s" % (
                 j["name"], len(sm["diverged"]), sm["diverged"][0]))
-            results["fetcher-replay " + j["name"]] = False
+            results["fetcher"] = False
 
     def after(rc, out):
         try:
             sums = json.load(open(inp + ".summary"))
         except Exception as e:
             raise Inconclusive("replay summary missing: %s" % e)
+        f = par.go(validate, par, "fetcher", [("fetcher-replay " + j["name"], j["out"]) for j in jl] + [("fetcher-free", free_out)],
+                   "FetcherTrace", "FetcherTrace.cfg", "FetcherMonitor", "FetcherMonitor.cfg", None, FETCH_PROPS, nontriv, 5, results, TORN)
         for j, sm in zip(jl, sums):
-            f = par.go(validate, par, "fetcher-replay " + j["name"], j["out"], "FetcherTrace", "FetcherTrace.cfg",
-                       "FetcherMonitor", "FetcherMonitor.cfg", None, FETCH_PROPS, nontriv, 5, results, TORN)
             par.go(replay_summary, j, sm, f)
-        par.go(validate, par, "fetcher-free", free_out, "FetcherTrace", "FetcherTrace.cfg", "FetcherMonitor", "FetcherMonitor.cfg",
-               None, FETCH_PROPS, nontriv, 2, results, TORN)
     return dict(pkg="./fs/remote/", overlay=FETCH_OVERLAY, tests="TestVerifFetcher(Replay|Free)", after=after,
                 env={"VERIF_FETCHER_IN": inp, "VERIF_FETCHER_FREE_OUT": free_out,
                      "VERIF_FETCHER_FREE_TRACES": "3000" if thorough else "150"})
@@ -296,7 +314,7 @@ def hosts_prepare(par, thorough, results):
     nontriv = lambda t: any(e.get("ev") == "Send" and e.get("hdrs") for e in t) and len({e.get("host") for e in t if e.get("ev") == "Send"}) > 1
 
     def after(rc, out_text):
-        par.go(validate, par, "hosts-replay", out, "HostsTrace", "HostsTrace.cfg", "HostsMonitor", "HostsMonitor.cfg",
+        par.go(validate, par, "hosts", [("hosts-replay", out)], "HostsTrace", "HostsTrace.cfg", "HostsMonitor", "HostsMonitor.cfg",
                None, HOSTS_PROPS, nontriv, 4, results)
     return dict(pkg="./service/resolver/", overlay=HOSTS_OVERLAY, tests="TestVerifHostsReplay", after=after, env={"VERIF_HOSTS_IN": inp})
 
